@@ -50,6 +50,7 @@ ACCESSORS = {
     ("Ciphertext", "contains_seed", 0): ("bool", "{0}.seeded"),
     ("Ciphertext", "data", 0): (("vec", "u64"), "{0}.data"),
     ("Ciphertext", "poly", 1): (("vec", "u64"), "({0}.poly {1})"),
+    ("Ciphertext", "poly_component", 2): (("vec", "u64"), "({0}.comp {1} {2})"),
     ("Ciphertext", "coeff_modulus_size", 0): ("usize", "{0}.cms"),
     ("Ciphertext", "poly_modulus_degree", 0): ("usize", "{0}.deg"),
 }
@@ -332,9 +333,9 @@ class Lower:
                 def kj(ci, ti):
                     if isinstance(tb, tuple) and tb[0] in ("arr", "bytes") and e[2][0] == "num" and e[2][1] < tb[2]:
                         return k(f"({cb}.getD {ci} 0)", tb[1] if tb[0] == "arr" else "u8")
-                    if isinstance(tb, tuple) and tb[0] in ("vec", "arr") and self.mode == "P":
+                    if isinstance(tb, tuple) and tb[0] in ("vec", "arr") and self.mode in ("P", "W") and self.is_nat(tb[1]):
                         v = self.fresh()
-                        return self.bind(f"pidx {cb} {ci}", v, k(v, tb[1]))
+                        return self.bind(f"pidx {cb} {ci}" if self.mode == "P" else f"wlift (pidx {cb} {ci})", v, k(v, tb[1]))
                     self.fail(f"indexing a value of type {tb} (mode {self.mode})")
                 return self.ce(e[2], env, kj)
             return self.ce(e[1], env, ki)
@@ -481,11 +482,15 @@ class Lower:
             env2 = dict(env); env2[x] = (self.lname(x), t[1])
             res = {}
             def kb(cb, tb): res["t"] = tb; return self.pure(cb)
-            inner = self.ce(body[1], env2, kb)
+            outer = (self.mode, self.m)
+            if self.mode == "W": self.mode, self.m = "P", "p"        # the closure is a partial PURE computation; its failure is a panic of the writer
+            try: inner = self.ce(body[1], env2, kb)
+            finally: self.mode, self.m = outer
             if self.mode == "T": return k(f"(List.map (fun {self.lname(x)} => {inner}) {c})", ("vec", res["t"]))
-            if self.mode != "P": self.fail("`.map` with effects outside a P function")
+            if self.mode not in ("P", "W"): self.fail("`.map` with effects in a reader")
             v = self.fresh()
-            return self.bind(f"pmapM (fun {self.lname(x)} =>\n{inner}) {c}", v, k(v, ("vec", res["t"])))
+            call = f"pmapM (fun {self.lname(x)} =>\n{inner}) {c}"
+            return self.bind(call if self.mode == "P" else f"wlift ({call})", v, k(v, ("vec", res["t"])))
         return self.ce(src, env, ks)
 
     # ---- monadic calls: returns a function taking k(monadic code, result type)
@@ -801,6 +806,11 @@ def wbind {S E α β : Type} (m : W S E α) (f : α → W S E β) : W S E β := 
   | (.error e, s') => (.error e, s')
 def wpanic {S E α : Type} : W S E α := fun s => (.error .panic, s)
 def winvalid {S E α : Type} : W S E α := fun s => (.error .invalid, s)
+/-- a partial pure computation inside a writer (`v[i]`, `get_u64_limit`): its failure is a panic -/
+def wlift {S E α : Type} (r : R α) : W S E α := fun s =>
+  match r with
+  | .ok a => (.ok a, s)
+  | .error _ => (.error .panic, s)
 /-- what `T: Write` offers: `write` (count of bytes taken) and `write_all` -/
 structure WStream (S E : Type) where
   write : Bytes → S → Except E Nat × S
@@ -844,6 +854,7 @@ structure CtV where
   seeded : Bool
   data : List Nat
   poly : Nat → List Nat
+  comp : Nat → Nat → List Nat      -- `poly_component(i, j)`
   cms : Nat       -- `coeff_modulus_size()`
   deg : Nat       -- `poly_modulus_degree()`
 """
@@ -982,6 +993,7 @@ TABLE = (
        {"fn": "write_u64_limited", "mode": "W", "lean": "write_u64_limited", "where": "fn write_u64_limited"},
        {"fn": "read_u64_limited", "mode": "R", "lean": "read_u64_limited", "where": "fn read_u64_limited"},
        {"fn": "serialize_full", "impl": "Ciphertext", "selfty": "Ciphertext", "mode": "W", "lean": "ct_serialize_full", "where": "impl Ciphertext :: serialize_full", "ctx_first": True},
+       {"fn": "serialize", "impl": "SerializableWithHeContext for Ciphertext", "selfty": "Ciphertext", "mode": "W", "lean": "ct_serialize", "where": "impl SerializableWithHeContext for Ciphertext :: serialize", "ctx_first": True},
        {"fn": "serialized_full_size", "impl": "Ciphertext", "selfty": "Ciphertext", "mode": "T", "lean": "ct_serialized_full_size", "where": "impl Ciphertext :: serialized_full_size", "ctx_first": True},
        {"fn": "serialized_size", "impl": "SerializableWithHeContext for Ciphertext", "selfty": "Ciphertext", "mode": "P", "lean": "ct_serialized_size", "where": "impl SerializableWithHeContext for Ciphertext :: serialized_size", "ctx_first": True},
        {"fn": "serialized_terms_size", "impl": "Ciphertext", "selfty": "Ciphertext", "mode": "P", "lean": "ct_serialized_terms_size", "where": "impl Ciphertext :: serialized_terms_size", "ctx_first": True}]
